@@ -5,7 +5,8 @@ CFG = {
                   "atomic bookkeeping transitions and each transition is shown to preserve Inv). Inv gives: pair ids pairwise "
                   "distinct, already handed out and never reused; candidate identities distinct; both ends of every listed pair "
                   "are current candidates of one network type; the selected pair is listed; remote candidates pairwise "
-                  "non-Equal and none rejected by the remote IP filter (discovered peer-reflexive ones included); caches "
+                  "non-Equal, none rejected by the remote IP filter (discovered peer-reflexive ones included) and none with tcptype "
+                  "active (the public AddRemoteCandidate drops them, a discovery carries no tcptype); caches "
                   "reference current candidates. Further theorems: a pair id keeps addressing the same local candidate and the "
                   "same remote transport address across every event, peer-reflexive supersession included; addRemoteCandidate "
                   "keeps id/state/flags/counters/priority value of every pair and the selection; Restart and every transition "
@@ -24,7 +25,8 @@ CFG = {
                   "operation's full canonical state compared), so a change of the code that breaks a clause shows up as a "
                   "MISMATCH there, not as a failing Lean proof. Trusted: Lean kernel (axioms propext/Classical.choice/"
                   "Quot.sound), the harness and its canonical digest, pion/stun decoding and HMAC modelled as perfect. Not "
-                  "modelled: TCP candidates (hence no TCP-active clause), mDNS candidates, active TCP dialling, automatic "
+                  "modelled: mDNS candidates, active TCP dialling (addRemotePassiveTCPCandidate creates nothing for the interface-less "
+                  "harness agents; TCP candidates of every tcptype ARE modelled, local ones ride on the in-memory hub), automatic "
                   "renomination, gathering. Candidate identity (Go pointer) is a model-assigned uid. After Close the model and "
                   "the code keep the checklist while the candidate lists are emptied: the pair-ends clause is stated for "
                   "agents that are not closed. Not in the property text: the controlling selector's nominatedPair may dangle "
@@ -33,7 +35,7 @@ CFG = {
     "rule": "quick: the session generator of component `agent` (boundary configurations first, then random interleavings of "
             "local arrival, remote trickle with duplicates, prflx-then-signalled and signalled-then-prflx, inbound checks from "
             "unknown sources, filter, restart, failure, close; in half of the sessions a third of the signalled remote candidates "
-            "use a non-canonical address literal: the same address in both forms, before and after a prflx discovery); corpus/C06/agent.ops (duplicate-pair witness, double "
+            "use a non-canonical address literal: the same address in both forms, before and after a prflx discovery; a third of the sessions mix udp and tcp candidates: local TCP candidates of every tcptype, the same ip:port over both transports, remote candidates signalled active / passive / so / without tcptype, duplicates differing in the tcptype only, checks and payload from TCP sources); corpus/C06/agent.ops (duplicate-pair witness, double "
             "supersession) is replayed first. Distinct = distinct (operation, output) lines; non-trivial = the output is a "
             "full agent state digest (not bad-op / ended).",
     "translated": [],
